@@ -1,0 +1,23 @@
+//go:build verif
+
+package verifspec
+
+// Contracts for build/cache (property C20).
+//
+// Strings that only serve as keys are compared through their identity str(s); fmt.Sprintf("%#v", struct), path.Join
+// over clean components and sha256 are modelled as injective functions of the identities of their inputs
+// (gosyntax, joinid, sha256hex) -- the listed cryptographic / formatting assumptions.
+
+//@ func build/cache.BuildCache.isTestPackage
+//@ property C20
+//@   recv_may_be_nil
+//@   ensures result == (bc != nil && len(importPath) > 0 && (importPath == bc.TestedPackage || importPath == bc.TestedPackage + "_test"))
+
+// Every build parameter reaches the key, in a fixed order; TestedPackage deliberately does not.
+//@ func build/cache.BuildCache.commonKey
+//@ property C20
+//@   ensures str(result) == gosyntax(pair(str(bc.GOOS), pair(str(bc.GOARCH), pair(str(bc.GOROOT), pair(str(bc.GOPATH), pair(strs(bc.BuildTags), pair(str(bc.Version), 0)))))))
+
+//@ func build/cache.BuildCache.packageKey
+//@ property C20
+//@   ensures str(result) == joinid(pair(str("package"), pair(gosyntax(pair(str(bc.GOOS), pair(str(bc.GOARCH), pair(str(bc.GOROOT), pair(str(bc.GOPATH), pair(strs(bc.BuildTags), pair(str(bc.Version), 0))))))), pair(str(importPath), 0))))
